@@ -145,6 +145,7 @@ class SimNet:
         self.hard: list = []  # (call, addrkey, label): deviations that make an exchange fail
         self.owner_classes = ()
         self.nconn = 0
+        self.slow_by = 0
 
     # -- configuration -----------------------------------------------------
     def add_server(self, host, port=None, **kw) -> ModelServer:
@@ -498,9 +499,12 @@ class SimSocket:
                     else:
                         app.append(lab)
                 c = net.choose("recv", app)
-        if c not in ("ok", "short1", "cut_cr", "eintr"):
+        if c not in ("ok", "short1", "cut_cr", "eintr", "slow"):
             net.hard.append((net.call, self.addr, c))
         if c == "ok":
+            data, tags = conn.take(limit)
+        elif c == "slow":  # the reply takes a while: time passes during the call
+            net.clock.advance(net.slow_by)
             data, tags = conn.take(limit)
         elif c == "short1":
             data, tags = conn.take(1)
